@@ -4,6 +4,7 @@ import (
 	"bytes"
 	"encoding/hex"
 	"fmt"
+	"go/types"
 	"os"
 	"os/exec"
 	"path/filepath"
@@ -183,9 +184,10 @@ func c08CPU(o *out, cases []*c08Case, wd, repo string) (map[string]any, error) {
 				switch {
 				case t == "bool":
 					conv = "b2u(x)"
-				case strings.HasPrefix(t, "int"):
+				case cs.basic.Info()&types.IsInteger != 0 && cs.basic.Info()&types.IsUnsigned == 0:
+					// Go converts a signed integer to a wider integer type by sign extension
 					conv = fmt.Sprintf("uint64(%s(%s(x)))", c08UintOf(w), c08IntOf(w))
-				case strings.HasPrefix(t, "uint"):
+				case cs.basic.Info()&types.IsInteger != 0:
 					conv = fmt.Sprintf("uint64(%s(x))", c08UintOf(w))
 				default:
 					conv = toBits
